@@ -6,4 +6,5 @@ CONSTANTS
   Rs = {1, 2, 3}
   Junk = {0, 5}
   SaveRestore = FALSE
+  CallBuffers = TRUE
 INVARIANT ImplIsSubstitution
